@@ -248,7 +248,50 @@ def run_connect(shard, res: Result):
                                "whole": repr(base[0])[:300], "segmented": repr(got[0])[:300]})
 
 
+BLOCK = {"evals": 0, "short": []}
+
+
+def block_returns_what_was_asked(size, result):
+    BLOCK["evals"] += 1
+    if len(result) != size:
+        BLOCK["short"].append((size, len(result)))
+    return True
+
+
+def install_block_contract():
+    """Auxiliary M-CONTRACT on the block reader (name-mangled; absence only downgrades
+    this monitor to 'not reached'): bytes returned == bytes requested unless it raised."""
+    from .. import contracts
+    cls = mslab.Client
+    fn = getattr(cls, "_Client__read_block", None)
+    if fn is None or getattr(fn, "_rv", False):
+        return fn is not None
+    if contracts.HAVE_ICONTRACT:
+        w = contracts.icontract.ensure(block_returns_what_was_asked, error=AssertionError)(fn)
+    else:
+        def w(self, size):
+            r = fn(self, size)
+            block_returns_what_was_asked(size, r)
+            return r
+    w._rv = True
+    setattr(cls, "_Client__read_block", w)
+    return True
+
+
 def run_shard(tier, shard, res: Result):
+    have = install_block_contract()
+    res.observe("block-reader-contract", "installed" if have else "not-reached")
+    try:
+        _run_shard(tier, shard, res)
+    finally:
+        res.monitors["block-reader-returns-requested-size"] = [BLOCK["evals"],
+                                                               len(BLOCK["short"])]
+        if BLOCK["short"]:
+            res.violation({"op": "any", "differs": "block-reader-short-read", "cut": "any"},
+                          {"asked_vs_got": BLOCK["short"][:5]})
+
+
+def _run_shard(tier, shard, res: Result):
     if shard["w"] == "replies":
         run_replies(shard, res, tier)
     else:
